@@ -160,8 +160,23 @@ fn join_case(rng: &mut Rng, rep: &mut Report, cfg: &GenCfg) {
     let input = || json!({"A": a.render(), "B": b.render()});
     let expected = ref_join(&a, &b);
     if expected.is_err() { eprintln!("HARNESS-ERROR C09 generator produced a conflicting pair in the conflict-free workload"); std::process::exit(3); }
+    // the comment of the mapping set itself (a field of `Mappings` the API user sets; the Tiny reader never does): a comment like
+    // any other - taken from whichever side has one, equal ones kept (differing ones: see conflict_case)
+    let (mut qa, mut qb) = (qa, qb);
+    let set_doc = |s: &str| Some(quill::tree::mappings::JavadocMapping(s.to_owned()));
+    let set_level = rng.below(6);
+    let expected_set_comment: Option<&str> = match set_level { 1 => { qa.javadoc = set_doc("set A\nline"); Some("set A\nline") } 2 => { qb.javadoc = set_doc("set B"); Some("set B") }
+        3 => { qa.javadoc = set_doc("both\n"); qb.javadoc = set_doc("both\n"); Some("both\n") } _ => None };
+    if set_level >= 1 && set_level <= 3 { rep.count(["", "set_comment.only_A", "set_comment.only_B", "set_comment.equal_on_both"][set_level]); }
     let Some(r) = run_merge(rep, &qa, &qb, &input) else { return };
-    if let Ok(r) = &r { maps::watch(rep, "C09", "merge", r, input); }
+    if let Ok(r) = &r {
+        maps::watch(rep, "C09", "merge", r, input);
+        let got = r.javadoc.as_ref().map(|j| j.0.as_str());
+        if got != expected_set_comment {
+            rep.violation(format!("C09 merge: comment of the mapping set itself {}", match (expected_set_comment, got) { (Some(_), None) => "lost", (None, Some(_)) => "invented", _ => "differs" }),
+                json!({"set_level_comment_A": qa.javadoc.as_ref().map(|j| &j.0), "set_level_comment_B": qb.javadoc.as_ref().map(|j| &j.0), "observed": got, "input": input()}));
+        }
+    }
     let observed = r.as_ref().map(|r| maps::from_quill(r)).map_err(|e| e.clone());
     let v = judge(&expected, &observed);
     for (sig, w) in &v { rep.violation(sig.clone(), json!({"where": w, "input": input(), "expected": expected.as_ref().map(|e| e.render()).ok(), "observed": observed.as_ref().map(|o| o.render())})); }
@@ -191,7 +206,7 @@ fn conflict_case(rng: &mut Rng, rep: &mut Report, cfg: &GenCfg) {
     let mut scratch = Report::new();
     let (mut a, mut b) = split(&u, rng, &mut scratch);
     rep.eval();
-    let kind = rng.below(5);
+    let kind = rng.below(6);
     let level = rng.below(4);
     let lname = ["class", "field", "method", "parameter"][level];
     // a shared entry at `level`
@@ -210,8 +225,8 @@ fn conflict_case(rng: &mut Rng, rep: &mut Report, cfg: &GenCfg) {
         }
     }
     if !cands.is_empty() { target = Some(cands[rng.below(cands.len())].clone()); }
-    let kname = ["comment", "first namespace", "descriptor", "parameter index", "first name"][kind];
-    if kind != 1 && target.is_none() { rep.count("conflict.skipped_no_shared_entry"); return; }
+    let kname = ["comment", "first namespace", "descriptor", "parameter index", "first name", "set-level comment"][kind];
+    if kind != 1 && kind != 5 && target.is_none() { rep.count("conflict.skipped_no_shared_entry"); return; }
     if (kind == 2 && !(level == 1 || level == 2)) || (kind == 3 && level != 3) { rep.count("conflict.skipped_kind_not_applicable_to_level"); return; }
     let mut expected_sig = String::new();
     match kind {
@@ -229,12 +244,27 @@ fn conflict_case(rng: &mut Rng, rep: &mut Report, cfg: &GenCfg) {
             if ref_join(&a, &b) != Err(Conflict::Comment(lname)) { eprintln!("HARNESS-ERROR C09 reference does not refuse an injected comment conflict"); std::process::exit(3); }
             expected_sig = format!("C09 conflict: differing {lname} comments accepted");
         }
-        1 => { b.namespaces[0] = format!("{}x", b.namespaces[0]); expected_sig = "C09 conflict: differing first namespaces accepted".into(); }
+        1 => {
+            // B's first namespace differs from A's: an unrelated name, or - where a lookup by name instead of a comparison of the
+            // first positions would be fooled - a name that occurs elsewhere in the pair: A's second namespace, B = (A's second,
+            // A's first) i.e. the shared namespace in B's SECOND position, B's own second name twice
+            let (s0, a1, b1) = (a.namespaces[0].clone(), a.namespaces[1].clone(), b.namespaces[1].clone());
+            let shape = rng.below(5);
+            match shape {
+                0 => b.namespaces[0] = format!("{s0}x"),
+                1 => b.namespaces[0] = a1.clone(),
+                2 => { b.namespaces[0] = b1.clone(); b.namespaces[1] = s0.clone(); }
+                3 => { b.namespaces[0] = a1.clone(); b.namespaces[1] = s0.clone(); }
+                _ => { b.namespaces[0] = format!("{s0} "); }
+            }
+            rep.count(&format!("conflict.first_namespace_shape.{}", ["unrelated", "equals_A's_second", "shared_namespace_is_B's_second", "B_is_A_reversed", "trailing_blank"][shape]));
+            expected_sig = "C09 conflict: differing first namespaces accepted".into();
+        }
         _ => {}
     }
     let qa: QA = maps::to_quill(&a, &mut Ins::Shuffle(&mut rng.fork())).expect("expressible");
     let mut qb: QB = maps::to_quill(&b, &mut Ins::Shuffle(&mut rng.fork())).expect("expressible");
-    if kind >= 2 {
+    if (2..=4).contains(&kind) {
         // tamper with the info of the shared entry on side B, leaving its map key alone (the only way two entries
         // with the same key can carry different descriptors / indices / first names)
         let (ck, mk, pi) = target.clone().unwrap();
@@ -258,9 +288,16 @@ fn conflict_case(rng: &mut Rng, rep: &mut Report, cfg: &GenCfg) {
             _ => unreachable!(),
         }
     }
-    let input = || json!({"A": a.render(), "B": b.render(), "injected": format!("{kname} conflict at {lname} level"), "target": format!("{target:?}")});
+    let mut qa = qa;
+    if kind == 5 {
+        let (ta, tb): (&str, &str) = *rng.pick(&[("left", "right"), ("doc", "doc\n"), ("doc line 1", "doc line 1\nmore"), ("x ", "x"), ("", "text")]);
+        qa.javadoc = Some(quill::tree::mappings::JavadocMapping(ta.to_owned()));
+        qb.javadoc = Some(quill::tree::mappings::JavadocMapping(tb.to_owned()));
+        expected_sig = "C09 conflict: differing comments of the two mapping sets themselves accepted".into();
+    }
+    let input = || json!({"A": a.render(), "B": b.render(), "injected": format!("{kname} conflict at {lname} level"), "target": format!("{target:?}"), "set_level_comments": [qa.javadoc.as_ref().map(|j| &j.0), qb.javadoc.as_ref().map(|j| &j.0)]});
     let Some(r) = run_merge(rep, &qa, &qb, &input) else { return };
-    rep.count(&format!("conflict.injected.{}.{}", kname.replace(' ', "_"), if kind == 1 { "-" } else { lname }));
+    rep.count(&format!("conflict.injected.{}.{}", kname.replace(' ', "_"), if kind == 1 || kind == 5 { "-" } else { lname }));
     match r {
         Err(_) => rep.count("conflict.refused"),
         Ok(o) => rep.violation(expected_sig, json!({"input": input(), "observed": maps::from_quill(&o).render()})),
@@ -335,6 +372,8 @@ fn main() {
             meta.oblige(format!("comment conflict injected at {l} level"), rep.get(&format!("conflict.injected.comment.{l}")) > 0);
             meta.oblige(format!("first-name conflict injected at {l} level"), rep.get(&format!("conflict.injected.first_name.{l}")) > 0);
         }
+        for k in ["set_comment.only_A", "set_comment.only_B", "set_comment.equal_on_both", "conflict.injected.set-level_comment.-", "conflict.first_namespace_shape.unrelated", "conflict.first_namespace_shape.equals_A's_second",
+            "conflict.first_namespace_shape.shared_namespace_is_B's_second", "conflict.first_namespace_shape.B_is_A_reversed"] { meta.oblige(format!("at least 20 cases with {k}"), rep.get(k) >= 20); }
         for k in ["overlap.one_sided_method_with_parameters", "overlap.one_side_empty", "projection.checked", "projection.checked_with_comments", "conflict.injected.first_namespace.-",
             "conflict.injected.descriptor.field", "conflict.injected.descriptor.method", "conflict.injected.parameter_index.parameter", "conflict.refused"] {
             meta.oblige(format!("at least one case with {k}"), rep.get(k) > 0);
